@@ -131,6 +131,7 @@ type evLog struct {
 	// per call: connection its query was seen on (-1 = not seen), id, whether it has returned
 	seenOn   []int
 	returned []bool
+	started  []time.Time
 	fail     string
 }
 
@@ -328,7 +329,12 @@ func (ss *scriptServer) serve(sc *srvConn) {
 			ss.sc.log.evs = append(ss.sc.log.evs, fmt.Sprintf("Q%d:%d", k, ss.idx))
 			ss.sc.log.mu.Unlock()
 			ss.emu.Unlock()
-			if !reg && !ret {
+			// (a call that has given up unregisters a moment before the harness notes its return: only calls that are
+			// certainly still inside Request count — less than half of their deadline has passed)
+			ss.sc.log.mu.Lock()
+			age := time.Since(ss.sc.log.started[k])
+			ss.sc.log.mu.Unlock()
+			if !reg && !ret && age < ss.sc.limitOf(k)/2 {
 				ss.sc.log.setFail("query-on-wire-before-registration call=%d", k)
 			}
 			ss.wg.Add(1)
@@ -430,7 +436,7 @@ func newScenario(seed int64, nconn int, timeout time.Duration, acts []act) (*sce
 		acts = append(acts, act{kind: 'n'})
 	}
 	sc := &scenario{ncalls: n, nconn: nconn, timeout: timeout, acts: acts, rng: rand.New(rand.NewSource(seed)),
-		log: &evLog{seenOn: make([]int, len(acts)), returned: make([]bool, len(acts))}}
+		log: &evLog{seenOn: make([]int, len(acts)), returned: make([]bool, len(acts)), started: make([]time.Time, len(acts))}}
 	for i := range sc.log.seenOn {
 		sc.log.seenOn[i] = -1
 	}
@@ -470,11 +476,24 @@ func (sc *scenario) shutdown(conns []*liteclient.Connection) {
 	}
 }
 
+// limitOf: the deadline of call k (client timeout, or the caller's own shorter deadline)
+func (sc *scenario) limitOf(k int) time.Duration {
+	if sc.shortFor != nil && sc.shortFor(sc.acts[k]) {
+		return sc.short
+	}
+	return sc.timeout
+}
+
 // doCall issues call k and classifies the result.
 func (sc *scenario) doCall(k int) callResult {
 	q := make([]byte, 4+sc.rnd(100))
 	binary.LittleEndian.PutUint32(q, uint32(k))
-	sc.log.add("B%d", k)
+	sc.log.mu.Lock()
+	sc.log.started[k] = time.Now()
+	sc.log.returned[k] = false
+	sc.log.seenOn[k] = -1
+	sc.log.evs = append(sc.log.evs, fmt.Sprintf("B%d", k))
+	sc.log.mu.Unlock()
 	ctx, limit := context.Background(), sc.timeout
 	if sc.shortFor != nil && sc.shortFor(sc.acts[k]) {
 		// the caller's own deadline (Request derives its context from it): used by the deterministic scenarios for calls
@@ -680,16 +699,31 @@ func goClientChaos(a []string) string {
 	base := sc.ncalls
 	extra := 2 * nconn
 	okCount := 0
-	for i := 0; base+i < len(sc.acts) && okCount < extra && time.Now().Before(deadline); i++ {
-		r := sc.doCall(base + i)
-		if r.class == fmt.Sprintf("m%d", tagOf(base+i)) {
+	for i := 0; okCount < extra && time.Now().Before(deadline); i++ {
+		k := base + i%(len(sc.acts)-base) // the spare call indices are reused: these calls are sequential
+		r := sc.doCall(k)
+		if os.Getenv("VH_DEBUG") != "" {
+			st := ""
+			for _, c := range conns {
+				st += fmt.Sprint(c.Status())
+			}
+			fmt.Fprintf(os.Stderr, "recovery call %d -> %s status=%s\n", k, r.class, st)
+		}
+		if r.class == fmt.Sprintf("m%d", tagOf(k)) {
 			okCount++
 		} else {
-			okCount = 0 // a connection dropped just before the end may need one failing send to notice
-			time.Sleep(50 * time.Millisecond)
+			// a connection dropped just before the end needs one failing send to notice; a reconnect attempt that the
+			// server cut sleeps 1 s before the next one
+			okCount = 0
+			time.Sleep(100 * time.Millisecond)
 		}
 	}
 	if okCount < extra {
+		if os.Getenv("VH_DEBUG") != "" {
+			buf := make([]byte, 1<<22)
+			n := runtime.Stack(buf, true)
+			os.Stderr.Write(buf[:n])
+		}
 		return "FAIL client-not-usable-after-drops"
 	}
 	if n := sc.client.VerifQueriesLen(); n != 0 {
